@@ -61,11 +61,11 @@ func exprString(v ssa.Value, names map[ssa.Value]string, depth int) string {
 	}
 	switch x := v.(type) {
 	case *ssa.Parameter:
-		return "$" + x.Name()
+		return "$" + pinParamName(x)
 	case *ssa.UnOp:
 		if x.Op == token.MUL {
 			if f := loadedField(x); f != nil {
-				return f.Name()
+				return pinFieldName(f)
 			}
 		}
 	case *ssa.Call:
@@ -73,7 +73,7 @@ func exprString(v ssa.Value, names map[ssa.Value]string, depth int) string {
 			return exprString(r, names, depth+1)
 		}
 		if callee := x.Call.StaticCallee(); callee != nil {
-			return callee.Name() + "()"
+			return pinName(callee) + "()"
 		}
 		if b, ok := x.Call.Value.(*ssa.Builtin); ok {
 			var as []string
@@ -163,7 +163,7 @@ func storeTable(fn *ssa.Function, fields map[*types.Var]bool, names map[ssa.Valu
 			for prm, arg := range d.subst {
 				nm[prm] = exprString(arg, names, 0)
 			}
-			out = append(out, guardStr(d.Site.Block())+" => "+fv.Name()+" = "+exprString(d.Store.Val, nm, 0))
+			out = append(out, guardStr(d.Site.Block())+" => "+pinFieldName(fv)+" = "+exprString(d.Store.Val, nm, 0))
 		}
 	}
 	sort.Strings(out)
